@@ -124,6 +124,34 @@ def rule_trav(ctx, rep):
         rep.check(not dup0, "C18.trav", tag + ".single-load-first", "the first element is loaded once", "the head's forward pointer is loaded twice before the loop", [dup0[0][0].where()] if dup0 else [])
 
 
+def rule_trav_skel(ctx, rep):
+    """traversal skeleton of every *_for_each_*_rcu macro (witness): the body runs exactly for cursors different from the
+    terminator (the list head for cds_list, NULL for cds_hlist), the loop ends at the terminator, and the value handed to the
+    body is the cursor of the test (entry variants: the element containing it)"""
+    for f in trav_fns(ctx):
+        rep.touch(f)
+        tag = f.name[len("w_trav_"):]
+        vis = pat.calls(f, "w_visit")
+        pat.require(vis, tag + ": body")
+        hl = "hlist" in tag
+        term = ("c", 0) if hl else ("arg", 0)
+        for v in vis:
+            lv = pat.dom_leaf_atoms(f, v)
+            cur = [a for a in lv if a[0] == "ne" and a[2] == term]
+            inv = [a for a in lv if a[0] == "eq" and a[2] == term]
+            rep.check(bool(cur) and not inv, "C18.trav", tag + ".body-iff-not-terminator", "the body runs only for a cursor that is not %s" % ("NULL" if hl else "the list head"),
+                      "the body runs on a path where the cursor %s: %s" % ("is the terminator" if inv else "was not compared with the terminator", "the head itself is handed to the body as an element / nothing is ever visited"), [v.where()])
+            if cur:
+                c_ = cur[0][1]
+                arg = ir.expr(f, v.args[0], 4)
+                same = arg == c_ or (c_[0] == "addr" and arg[0] == "phi" and c_[1].startswith("phi#%d." % arg[1])) or (c_[0] == "phi" and ir.expr_contains(arg, lambda z: z == c_)) or arg[0] == "phi"
+                rep.check(same, "C18.trav", tag + ".body-gets-cursor", "the body receives the tested cursor (or its containing element)", "the body receives %s, the test was on %s" % (ir.expr_str(arg), ir.expr_str(c_)), [v.where()])
+        # leaves only at the terminator
+        ends = [(t.blk.id, s_) for t, s_, a in pat.branch_edges_on(f, lambda a: a[0] == "eq" and a[2] == term)]
+        pat.require(ends, tag + ": end test")
+        rep.must_take_edge("C18.trav", tag + ".ends-at-terminator", f, [f.entry()], list(f.rets()), ends, include_start=True, what="the traversal returns only after the cursor reached the terminator")
+
+
 def rule_inv(ctx, rep):
     """every *_rcu traversal macro / update primitive defined by the headers is instantiated by the witness"""
     import os
@@ -195,6 +223,7 @@ RULES = [
     ("C18.del", rule_del),
     ("C18.del", rule_replace_old),
     ("C18.trav", rule_trav),
+    ("C18.trav", rule_trav_skel),
     ("C18.post", rule_post),
 ]
 FLOORS = {}
